@@ -50,8 +50,14 @@ idx_st = st.one_of(
     st.fixed_dictionaries({"t": st.sampled_from(["ints_nd", "ints_arr", "ints_list", "ints_arr32"]),
                            "ii": st.lists(st.integers(-40, 40), min_size=0, max_size=12)}),
     st.fixed_dictionaries({"t": st.just("empty")}),
+    # one persistent mask object per history, rewritten in place before each use (ndarray or wrapped in one Array)
+    st.fixed_dictionaries({"t": st.sampled_from(["mask_reuse_nd", "mask_reuse_arr"]),
+                           "bits": st.lists(st.booleans(), min_size=40, max_size=40)}),
 )
+reuse_idx_st = st.fixed_dictionaries({"t": st.sampled_from(["mask_reuse_nd", "mask_reuse_arr"]),
+                                      "bits": st.lists(st.booleans(), min_size=40, max_size=40)})
 op_st = st.one_of(
+    st.fixed_dictionaries({"op": st.just("index"), "idx": reuse_idx_st, "adopt": st.just(False)}),
     st.fixed_dictionaries({"op": st.just("insert"), "key": key_st, "val": val_st}),
     st.fixed_dictionaries({"op": st.just("insert"), "key": key_st, "val": val_st}),
     st.fixed_dictionaries({"op": st.just("update"), "items": st.lists(st.tuples(key_st, val_st), min_size=1, max_size=3)
@@ -107,16 +113,31 @@ def _np_index(idx, n):
         return idx["i"]
     if t == "slice":
         return slice(idx["a"], idx["b"], idx["s"])
-    if t in ("mask_nd", "mask_arr"):
+    if t in ("mask_nd", "mask_arr", "mask_reuse_nd", "mask_reuse_arr"):
         return np.array(idx["bits"][:n], dtype=bool)
     if t.startswith("ints"):
         return np.array([i for i in idx["ii"]], dtype=np.int32 if t == "ints_arr32" else np.int64)
     return np.array([], dtype=np.int64)
 
 
+_PERSISTENT = {}
+
+
 def _osy_index(idx, n):
     t = idx["t"]
     ni = _np_index(idx, n)
+    if t in ("mask_reuse_nd", "mask_reuse_arr"):
+        st_ = _PERSISTENT.setdefault("mask", {})
+        if st_.get("n") != n:
+            st_.clear()
+            st_["n"] = n
+            st_["nd"] = np.zeros(n, dtype=bool)
+            st_["arr"] = osyris.Array(values=np.zeros(n, dtype=bool))
+        if t == "mask_reuse_nd":
+            st_["nd"][:] = ni
+            return st_["nd"]
+        st_["arr"].values[...] = ni
+        return st_["arr"]
     if t in ("mask_arr", "ints_arr", "ints_arr32"):
         return osyris.Array(values=ni)
     if t == "ints_list":
@@ -165,6 +186,7 @@ def _snapshot(model):
 
 
 def history(case, r):
+    _PERSISTENT.clear()
     n = case["n"]
     dg = osyris.Datagroup()
     model = {}
@@ -292,6 +314,8 @@ def history(case, r):
                 break
             if idx["t"] not in ("int", "slice", "empty"):
                 n_sel += 1
+            if idx["t"].startswith("mask_reuse"):
+                r.label("mask_object_reused")
             want = {k: {"kind": m["kind"], "unit": m["unit"], "comps": [c[ni] for c in m["comps"]]}
                     for k, m in model.items()}
             if not isinstance(res, osyris.Datagroup):
